@@ -165,7 +165,8 @@ class QuickSampler:
             self.__calculation_values = self._gen_calculation_values()
             # Also pre-calculate continuous distribution
             self.__continuous_distribution = self._convert_to_continuous(pdist)
-        return self.__probability_distribution
+        # Return a copy so edits by the caller cannot alter the cached values
+        return dict(self.__probability_distribution)
 
     @property
     def continuous_distribution(self) -> dict:
@@ -175,7 +176,7 @@ class QuickSampler:
         """
         if self._check_parameter_updates():
             self.probability_distribution  # noqa: B018
-        return self.__continuous_distribution
+        return dict(self.__continuous_distribution)
 
     def sample(self) -> State:
         """
